@@ -528,6 +528,45 @@ def meta_family(tier):
 # ---------------------------------------------------------------------------------------------
 # migration family (C03, C19)
 # ---------------------------------------------------------------------------------------------
+def _stale_pull_signature(lines, j):
+    """The known finding's signature inside the run that starts at line index j: a RESTORE of a key reaches a destination node
+    AFTER that node's proxy has been given plain ownership of the key's range (a SETCLUSTER without an IMPORTING tag, i.e. the
+    post-commit view) although the key had been DUMPed before.  With the hypothetical synchronous owner switch of Migration.tla this
+    cannot happen; every run that shows it is an instance of the known finding stale_pull_after_owner_switch, whatever the gate
+    schedule that produced it."""
+    owner_at = {}      # proxy host:port -> seq of the first post-commit SETCLUSTER (no IMPORTING / MIGRATING of its own ranges)
+    first_tagged = set()
+    dumped = {}        # key -> seq of the first DUMP
+    node_proxy = {}
+    k = j + 1
+    while k < len(lines):
+        e = json.loads(lines[k])
+        if e.get("kind") == "reset":
+            break
+        if e.get("kind") == "call" and len(e.get("cmd", [])) > 7 and e["cmd"][1] == "SETCLUSTER" and e.get("reply", {}).get("t") == "simple":
+            cmd = e["cmd"]
+            # local part = tokens before "PEER"
+            local = cmd[6:cmd.index("PEER")] if "PEER" in cmd else cmd[6:]
+            for t in local:
+                if ":" in t and t.split(":")[0].count(".") == 3 and t not in node_proxy:
+                    node_proxy[t] = e["to"]
+            if "IMPORTING" in local:
+                first_tagged.add(e["to"])
+            elif e["to"] in first_tagged and e["to"] not in owner_at:
+                owner_at[e["to"]] = e.get("seq", k)
+        elif e.get("kind") == "redis":
+            c = e.get("cmd", [])
+            if c and c[0] == "DUMP" and e.get("reply", {}).get("t") == "bulk":
+                dumped.setdefault(c[1], e.get("seq", k))
+            elif c and c[0] == "RESTORE" and e.get("reply", {}).get("t") == "simple":
+                p = node_proxy.get(e.get("node"))
+                if p in owner_at and e.get("seq", k) > owner_at[p] and dumped.get(c[1], 10 ** 9) < owner_at[p]:
+                    return True
+        k += 1
+    return False
+
+
+
 def migration_family(tier):
     sd = seed()
     key = "migration_%s_%s_%d" % (tree_hash(), tier, sd)
@@ -588,7 +627,7 @@ def migration_family(tier):
             while j > 0 and json.loads(lines[j]).get("kind") != "reset":
                 j -= 1
             cls = "-"
-            if json.loads(lines[j]).get("directed_stale"):
+            if json.loads(lines[j]).get("directed_stale") or _stale_pull_signature(lines, j):
                 cls = "stale_pull_after_owner_switch"
             elif "ttlinfo" in e:
                 cls = "pttl=%s:ttl=%s" % (e["ttlinfo"]["pttl_kind"], e["ttlinfo"]["ttl_kind"])
